@@ -196,7 +196,7 @@ fn handle_kinds(repr: u8) -> &'static [u8] {
 fn ops_for(h: u8) -> &'static [u8] {
     match h {
         1 => &[0, 2, 4, 5, 6, 3, 12],       // &Bytes: clone through it, read, is_unique, then drop / convert the clone
-        2 => &[2, 8, 9, 4, 11, 6],          // BytesMut half (6 = Into<Vec<u8>> of the BytesMut)
+        2 => &[2, 8, 9, 4, 11, 6, 13],      // BytesMut half (6 = Into<Vec<u8>> of the BytesMut, 13 = split it again)
         _ => &[1, 2, 3, 4, 5, 6, 7, 10, 12], // own Bytes
     }
 }
@@ -273,6 +273,10 @@ pub fn curated() -> Vec<Program> {
         p(2, false, vec![(4, vec![2, 4]), (2, vec![6])], vec![]),
         p(2, false, vec![(4, vec![5, 2]), (2, vec![2, 6])], vec![]),
         p(2, false, vec![(0, vec![4]), (2, vec![6]), (4, vec![4])], vec![]),
+        // the BytesMut half is split again after the frozen half was read and dropped elsewhere, then reclaims / converts
+        p(2, false, vec![(4, vec![2, 4]), (2, vec![13, 8, 2])], vec![]),
+        p(2, false, vec![(4, vec![2, 4]), (2, vec![13, 6])], vec![]),
+        p(2, false, vec![(0, vec![2, 4]), (2, vec![13, 13, 9]), (4, vec![4])], vec![]),
         // two competing Vec::from / try_into_mut on the last two references
         p(1, false, vec![(0, vec![2, 6]), (4, vec![2, 6])], vec![]),
         p(1, false, vec![(0, vec![5, 2]), (4, vec![5, 2])], vec![]),
@@ -298,7 +302,7 @@ pub fn curated() -> Vec<Program> {
 }
 
 fn program_strategy() -> BoxedStrategy<Program> {
-    (0u8..7, any::<bool>(), 2usize..=3, proptest::collection::vec((0u8..5, proptest::collection::vec(0u8..12, 0..=3)), 3), proptest::collection::vec(prop_oneof![Just(2u8), Just(5u8), Just(6u8), Just(7u8)], 0..=1))
+    (0u8..7, any::<bool>(), 2usize..=3, proptest::collection::vec((0u8..5, proptest::collection::vec(0u8..14, 0..=3)), 3), proptest::collection::vec(prop_oneof![Just(2u8), Just(5u8), Just(6u8), Just(7u8)], 0..=1))
         .prop_map(|(repr, odd, nt, mut threads, main_final)| {
             threads.truncate(nt);
             let hk = handle_kinds(repr);
